@@ -302,7 +302,13 @@ func (in *inliner) eligible(fd *ast.FuncDecl, obj *types.Func) (bool, bool) {
 				ok = false // a deferred closure may touch the helper's named results
 			}
 			hasDefer = true
-		case *ast.LabeledStmt, *ast.GoStmt:
+		case *ast.LabeledStmt:
+			// a label the inliner itself put there (another helper was spliced into this one in an
+			// earlier round) is renamed when this body is spliced; any other label is not handled
+			if !strings.HasPrefix(x.Label.Name, "_i") {
+				ok = false
+			}
+		case *ast.GoStmt:
 			ok = false
 		case *ast.BranchStmt:
 			if x.Tok == token.GOTO {
@@ -1168,6 +1174,20 @@ func (in *inliner) expand(file *ast.File, st *site, at token.Pos, mode string, t
 	}
 	in.counter++
 	pfx := fmt.Sprintf("_i%d_%d_", in.round, in.counter)
+	// labels of earlier splices inside the helper's body get a fresh name per site
+	ast.Inspect(fd.Body, func(n ast.Node) bool {
+		var id *ast.Ident
+		switch x := n.(type) {
+		case *ast.LabeledStmt:
+			id = x.Label
+		case *ast.BranchStmt:
+			id = x.Label
+		}
+		if id != nil && strings.HasPrefix(id.Name, "_i") {
+			identEdits = append(identEdits, textEdit{in.off(id.Pos()), in.off(id.End()), pfx + strings.TrimPrefix(id.Name, "_")})
+		}
+		return true
+	})
 	var b strings.Builder
 	b.WriteString("{\n")
 	// argument temporaries, in call order
